@@ -56,6 +56,9 @@ const (
 	pTypedNil
 	pNil
 	numPanicKinds
+	// pAbort is http.ErrAbortHandler: the statement makes no promise about such a request itself, but it is part of
+	// the history the following requests must be unaffected by
+	pAbort = 100
 )
 
 type behaviour struct {
@@ -78,7 +81,11 @@ func (b behaviour) String() string {
 		if b.panicBefore {
 			when = "before"
 		}
-		s += fmt.Sprintf(" panic(%s %q/%d) %s writing", []string{"", "string", "error", "int", "struct", "typed-nil", "nil"}[b.panicKind], b.pstr, b.pint, when)
+		kind := "http.ErrAbortHandler"
+		if b.panicKind < numPanicKinds {
+			kind = []string{"", "string", "error", "int", "struct", "typed-nil", "nil"}[b.panicKind]
+		}
+		s += fmt.Sprintf(" panic(%s %q/%d) %s writing", kind, b.pstr, b.pint, when)
 	}
 	return s
 }
@@ -189,6 +196,9 @@ func writeBody(s *httpd.Store, b behaviour) {
 }
 
 func doPanic(b behaviour) {
+	if b.panicKind == pAbort {
+		panic(http.ErrAbortHandler)
+	}
 	if b.panicKind == pNil {
 		var v any
 		panic(v)
@@ -332,6 +342,9 @@ func genBatch(t *rapid.T) *batch {
 				bh.pstr = rapid.SampledFrom([]string{"expected", "boom", "x=y"}).Draw(t, "pstrNano")
 			}
 			bh.pint = rapid.IntRange(-5, 500).Draw(t, "pint")
+		} else if rapid.IntRange(0, 11).Draw(t, "aborts") == 0 {
+			bh.panicKind = pAbort
+			bh.panicBefore = rapid.Bool().Draw(t, "abortBefore")
 		}
 		rq.b = bh
 		b.reqs = append(b.reqs, rq)
@@ -385,6 +398,9 @@ func runBatch(b *batch, realServer bool) string {
 	}
 	// ---- responses ----
 	for _, rq := range b.reqs {
+		if rq.matched && rq.b.panicKind == pAbort {
+			continue // outside the statement: whatever happens to an aborted request itself is accepted
+		}
 		if rq.escaped != nil {
 			return fmt.Sprintf("request %s %s {%s}: panic escaped ServeHTTP: %v", rq.method, rq.uri, rq.b, rq.escaped)
 		}
@@ -431,6 +447,14 @@ func runBatch(b *batch, realServer bool) string {
 	for _, rq := range b.reqs {
 		what := fmt.Sprintf("request %s %s {%s}", rq.method, rq.uri, rq.b)
 		tid := rq.seenID
+		if rq.matched && rq.b.panicKind == pAbort {
+			// its own records are not judged, only accounted for
+			if s := byTid[tid]; s != nil && tid != "" {
+				total += len(s.beg) + len(s.end) + len(s.errs)
+				ids[tid] = true
+			}
+			continue
+		}
 		if !rq.matched {
 			// the default no-route handler does not tell us the id: find it through the REQ_BEG record of this URI
 			for id, s := range byTid {
@@ -549,6 +573,10 @@ func TestBatches(t *testing.T) {
 		}
 		nt := b.parallel >= 4
 		for _, rq := range b.reqs {
+			if rq.matched && rq.b.panicKind == pAbort {
+				ev.Label("history_contains_ErrAbortHandler")
+				continue
+			}
 			if rq.matched && rq.b.panicKind != pNone {
 				ev.Label("panic:" + []string{"", "string", "error", "int", "struct", "typed-nil", "nil"}[rq.b.panicKind])
 				if !rq.b.panicBefore && (rq.b.status != 0 || rq.b.body) {
